@@ -55,6 +55,8 @@ structure Sig where
   loopDepth : Int
   required : List Str
   patterns : List Str
+  extra : Str := []        -- canonical rendering of the fields no lookup reads (description, category, ...)
+  refs : List Str := []    -- Metadata.References (MarkFalsePositive appends to it)
   deriving Repr, DecidableEq
 
 inductive Conf where
